@@ -1362,7 +1362,7 @@ class timed_window(Stream):
             L, self._buffer = self._buffer, []
             metadata, self.metadata_buffer = self.metadata_buffer, []
             m = [m for ml in metadata for m in ml]
-            self.last = self._emit(L, m)
+            self.last = gen.convert_yielded(self._emit(L, m))
             yield self.last
             self._release_refs(m)
             yield gen.sleep(self.interval)
@@ -1485,7 +1485,7 @@ class timed_window_unique(Stream):
             metadata_result, self._metadata_buffer = list(self._metadata_buffer.values()), {}
             # TODO: figure out why metadata_result is handled differently here...
             m = [m for ml in metadata_result for m in ml]
-            self.last = self._emit(result, m)
+            self.last = gen.convert_yielded(self._emit(result, m))
             yield self.last
             self._release_refs(m)
             yield gen.sleep(self.interval)
